@@ -374,7 +374,7 @@ Definition family_eqb (a b : family) : bool :=
 Definition err_eqb (a b : err) : bool :=
   match a, b with ETypeError, ETypeError | EAttributeError, EAttributeError => true | _, _ => false end.
 Definition binop_eqb (a b : binop) : bool :=
-  match a, b with OAdd, OAdd | OSub, OSub | OMul, OMul | ODiv, ODiv => true | _, _ => false end.
+  match a, b with OAdd, OAdd | OSub, OSub | OMul, OMul | ODiv, ODiv | OFloorDiv, OFloorDiv | OMod, OMod => true | _, _ => false end.
 Definition onat_eqb (a b : option nat) : bool :=
   match a, b with Some x, Some y => Nat.eqb x y | None, None => true | _, _ => false end.
 
@@ -441,7 +441,7 @@ Definition view_ok (o : obs) : bool :=
   list_eqb path_eqb (paths float n) (o_paths o)
   && Nat.eqb (prior_count float n) (o_count o)
   && list_eqb Nat.eqb (ordered_ids float n) (o_ids o)
-  && match o_inst o with Some i => ival_eqb (inst_from_paths float fbin n (o_pv o)) i | None => true end.
+  && match o_inst o with Some i => ival_eqb (inst_from_paths float fbin funop n (o_pv o)) i | None => true end.
 
 Definition frt := rt float ffalsy.
 
